@@ -48,7 +48,9 @@ CK_OBJECT_HANDLE HandleManager::addTokenObject(CK_SLOT_ID slotID, bool isPrivate
 CK_OBJECT_HANDLE HandleManager::addSessionObject(CK_SLOT_ID slotID, CK_SESSION_HANDLE hSession, bool isPrivate, CK_VOID_PTR object) { return reg(slotID, hSession, isPrivate, false, object); }
 
 static long vp_sos_store[4];
-extern "C" CK_RV vp_find(void)
+// One entry per template shape: the attribute TYPES are compile-time constants (so that cbmc resolves the
+// environment's attribute lookup instead of executing every attribute kind symbolically); lengths and values stay symbolic.
+static CK_RV find_with(CK_ULONG count, CK_ATTRIBUTE_TYPE t0, CK_ATTRIBUTE_TYPE t1)
 {
 	VP_MK_HSM();
 	hsm->sessionObjectStore = (SessionObjectStore*)(void*)&vp_sos_store[0];
@@ -56,7 +58,13 @@ extern "C" CK_RV vp_find(void)
 	for (int ti = 0; ti < VP_TMPL_MAX; ti++)
 	{
 		for (int b = 0; b < 8; b++) tvals[ti][b] = vp_in_tbytes[ti * 8 + b];
-		tmpl[ti].type = TMPL(ti, TYPE); tmpl[ti].ulValueLen = TMPL(ti, LEN); tmpl[ti].pValue = (CK_VOID_PTR)&tvals[ti][0];
+		tmpl[ti].ulValueLen = TMPL(ti, LEN); tmpl[ti].pValue = (CK_VOID_PTR)&tvals[ti][0];
 	}
-	return hsm->C_FindObjectsInit(SES(HSESSION), SES(NULL_OUT) ? (CK_ATTRIBUTE_PTR)0 : &tmpl[0], SES(TCOUNT));
+	tmpl[0].type = t0; tmpl[1].type = t1;
+	return hsm->C_FindObjectsInit(SES(HSESSION), &tmpl[0], count);
 }
+extern "C" CK_RV vp_find_empty(void) { return find_with(0, 0, 0); }
+extern "C" CK_RV vp_find_ulong(void) { return find_with(1, CKA_CLASS, 0); }
+extern "C" CK_RV vp_find_bool(void) { return find_with(1, CKA_TOKEN, 0); }
+extern "C" CK_RV vp_find_bytes(void) { return find_with(1, CKA_LABEL, 0); }
+extern "C" CK_RV vp_find_two(void) { return find_with(2, CKA_LABEL, CKA_CLASS); }
